@@ -1013,6 +1013,9 @@ func (e *env) step(i int, op Op) bool {
 					break
 				}
 				cur = r.Target()
+				// a target read back from disk is a name this operation uses too
+				// (for the planted-link rule); the name class stays that of n
+				names = append([]plumbing.ReferenceName{cur}, names...)
 			}
 		}
 	case "cas":
